@@ -249,7 +249,8 @@ class Sequencer(object):
             playing_new = []
             for (n, x) in enumerate(cur):
                 (start_tick, note_length, nc) = bars[n][x]
-                if start_tick <= tick and started[n] != x:
+                # (the beat sums of different bars are rounded differently)
+                if start_tick <= tick + 0.00001 and started[n] != x:
                     started[n] = x
                     self.play_NoteContainer(nc, channels[n])
                     playing_new.append([note_length, n])
